@@ -5,18 +5,33 @@ namespace Drv.Broker
 open Wire BState
 
 structure St where
-  s : BState := {}
+  ss : List BState := [{}]
 
-def res (st : St) (r : Res) : St × String :=
-  match r with
-  | .ok s => ({ s := s }, "ok")
-  | .queueFull s => ({ s := s }, "ok")
-  | .unsupported why => (st, "unsupported: " ++ why)
+/-- keep the candidate set small: drop states that print alike -/
+def prune (ss : List BState) : List BState :=
+  if ss.length ≤ 4 then ss else
+  let keyed := ss.map (fun s => (toString (repr s), s))
+  let rec go : List (String × BState) → List String → List BState → List BState
+    | [], _, acc => acc.reverse
+    | (k, s) :: rest, seen, acc => if seen.contains k then go rest seen acc else go rest (k :: seen) (s :: acc)
+  (go keyed [] []).take 256
+
+def applyStim (st : St) (f : BState → Res) : St × String :=
+  let rs := st.ss.map f
+  let oks := rs.flatMap (fun r => match r with | .ok ss => ss | .unsupported _ => [])
+  match oks with
+  | [] =>
+    (match rs.findSome? (fun r => match r with | .unsupported w => some w | _ => none) with
+     | some w => (st, "unsupported: " ++ w)
+     | none => (st, "reject"))
+  | _ => ({ ss := prune oks }, "ok")
 
 def obs (st : St) (o : Obs) : St × String :=
-  match observe st.s o with
-  | some s => ({ s := s }, "ok")
-  | none => (st, "reject")
+  match st.ss.flatMap (fun s => observe s o) with
+  | [] => (st, "reject")
+  | ss => ({ ss := prune ss }, "ok")
+
+def mapAll (st : St) (f : BState → BState) : St := { ss := st.ss.map f }
 
 def pCred (s : String) : Option (Bytes × Bytes) :=
   match s.splitOn ":" with
@@ -28,21 +43,21 @@ def handle (st : St) (toks : List String) : Option (St × String) :=
   | ["new", w, q, creds] => do
     let w ← w.toNat?; let q ← q.toNat?
     let cr ← (if creds == "-" then some none else (pList pCred creds).map some)
-    some ({ s := { cfg := { window := w, queue := q, creds := cr } } }, "ok")
-  | ["conn", c] => do let c ← c.toNat?; some (res st (stim st.s (.conn c)))
+    some ({ ss := [{ cfg := { window := w, queue := q, creds := cr } }] }, "ok")
+  | ["conn", c] => do let c ← c.toNat?; some (applyStim st (fun s => stim s (.conn c)))
   | "send" :: c :: rest => do
     let c ← c.toNat?; let p ← parsePacket rest
-    some (res st (stim st.s (.send c p)))
-  | ["drop", c] => do let c ← c.toNat?; some (res st (stim st.s (.drop c)))
+    some (applyStim st (fun s => stim s (.send c p)))
+  | ["drop", c] => do let c ← c.toNat?; some (applyStim st (fun s => stim s (.drop c)))
   | ["ackmode", m] =>
     (match m with
-     | "sync" => some ({ s := { st.s with lateAck := false, neverAck := false } }, "ok")
-     | "late" => some ({ s := { st.s with lateAck := true, neverAck := false } }, "ok")
-     | "never" => some ({ s := { st.s with lateAck := false, neverAck := true } }, "ok")
+     | "sync" => some (mapAll st (fun s => { s with lateAck := false, neverAck := false }), "ok")
+     | "late" => some (mapAll st (fun s => { s with lateAck := true, neverAck := false }), "ok")
+     | "never" => some (mapAll st (fun s => { s with lateAck := false, neverAck := true }), "ok")
      | _ => none)
-  | ["ackrelease"] => some (res st (stim st.s .ackRelease))
-  | ["bclose"] => some (res st (stim st.s .backendClose))
-  | ["toktimeout", c] => do let c ← c.toNat?; some (res st (stim st.s (.tokenTimeout c)))
+  | ["ackrelease"] => some (applyStim st (fun s => stim s .ackRelease))
+  | ["bclose"] => some (applyStim st (fun s => stim s .backendClose))
+  | ["toktimeout", c] => do let c ← c.toNat?; some (applyStim st (fun s => stim s (.tokenTimeout c)))
   | "obs" :: "sent" :: c :: rest => do
     let c ← c.toNat?; let p ← parsePacket rest
     some (obs st (.sent c p))
@@ -58,7 +73,10 @@ def handle (st : St) (toks : List String) : Option (St × String) :=
     let c ← c.toNat?; let r ← pBool r
     some (obs st (.backend (.setup c r)))
   | ["settle"] =>
-    some (st, match settle st.s with | none => "ok" | some why => "reject: " ++ why)
+    (match st.ss.filter (fun s => (settle s).isNone) with
+     | [] => some (st, "reject: " ++ ((st.ss.head?.bind settle).getD "?"))
+     | ss => some ({ ss := ss }, "ok"))
+  | ["worlds"] => some (st, toString st.ss.length)
   | _ => none
 
 end Drv.Broker
